@@ -237,7 +237,8 @@ Definition check_parked (variant : Z) (obs : list sx) : verdict :=
    on its output and callers sit in the send on the full start-request (2) / cancel-request
    (3) channel; then every id is queried and cancelled and further timers are started.
    No call may panic (panics), Shutdown and every caller must come back (returned, stuck),
-   Size() must agree with IsScheduled() (sizeBad) and Cancel() must return true exactly for
+   Size() must agree with IsScheduled() and be 0 - nothing will be delivered any more, so
+   nothing may be reported as scheduled - (sizeBad) and Cancel() must return true exactly for
    the ids IsScheduled() reported, which are not reported afterwards (cancelBad). *)
 Definition check_shutdown (obs : list sx) : verdict :=
   match obs with
@@ -249,8 +250,11 @@ Definition check_shutdown (obs : list sx) : verdict :=
   | _ => VBad
   end.
 
+(* the real-worker scenarios (impl 2..7) run in a child process of the harness; when the
+   scheduler's own goroutine panics there, the observation is (6) *)
 Definition check_case (c : sx) : verdict :=
   match c with
+  | SList [SList [SInt _; SInt _; SInt _; SList []]; SList [SInt 6]] => VPropFail 6
   | SList [SList [SInt 6; SInt _; SInt _; SList []]; SList obs] => check_shutdown obs
   | SList [SList [SInt 7; SInt _; SInt _; SList []]; SList obs] => check_shutdown obs
   | SList [SList [SInt 4; SInt variant; SInt _; SList []]; SList obs] => check_parked variant obs
